@@ -10,6 +10,7 @@ mod anycase;
 mod cli;
 mod dimacs_stream;
 mod proofcase;
+mod deep;
 mod streams;
 mod exec;
 mod findings;
